@@ -248,10 +248,24 @@ pub fn fail_injection<S: USet>(e: &mut Eng<S>, hists: usize, steps: usize) {
         let regime = [0u64, 1, 2, 3, 4, 5, 6, 9, 10, 11][h % 10];
         e.begin(&format!("fail-{}-r{}", h, regime));
         e.op_new(0);
+        // directed prologue (first histories): inline sets whose maximum sits on a dense-word boundary, then one more small value
+        let mut forced: Vec<(u64, u64)> = vec![];
+        if h < 12 {
+            let mx = [63u64, 64, 65, 127, 128, 129, 191, 192, 193, 255, 256, 1023][h];
+            let k = if S::W == 64 { 6 } else { 5 };
+            for x in 0..k {
+                e.op_ins(0, x);
+            }
+            e.op_ins(0, mx);
+            forced.push((0, k));
+        }
         for _ in 0..steps {
             e.step += 1;
-            let v = e.gen_value(0, regime);
-            let kind = e.rng.below(10);
+            let mut v = e.gen_value(0, regime);
+            if let Some(f) = forced.last() {
+                v = f.1;
+            }
+            let kind = if let Some(k) = forced.pop() { k.0 } else { e.rng.below(13) };
             // dry run on a clone: how many allocations does the op request?
             let probe = |s: &mut S, kind: u64, v: u64| -> bool {
                 match kind {
@@ -262,9 +276,25 @@ pub fn fail_injection<S: USet>(e: &mut Eng<S>, hists: usize, steps: usize) {
                         drop(c);
                         true
                     }
-                    _ => {
+                    9 => {
                         let w = S::wco(s);
                         drop(w);
+                        true
+                    }
+                    10 => {
+                        // extend by a few values around v (several inserts, possibly several growths)
+                        let vs: Vec<u64> = (0..5).map(|k| S::norm(v.wrapping_add(k * 1000))).collect();
+                        s.extend(&vs);
+                        true
+                    }
+                    11 => {
+                        let u = S::union_ref(s, s);
+                        drop(u);
+                        true
+                    }
+                    _ => {
+                        let u = S::diff_ref(s, s);
+                        drop(u);
                         true
                     }
                 }
@@ -291,9 +321,9 @@ pub fn fail_injection<S: USet>(e: &mut Eng<S>, hists: usize, steps: usize) {
             let nalloc = alloc::ZEROED_ALLOCS.load(SeqCst);
             drop(c0);
             for k in 0..nalloc.min(6) {
+                let (lb0, _) = alloc::live();
                 let mut c = e.slots[0].as_ref().unwrap().clone();
                 let cb = repr_string(&c);
-                let (lb0, _) = alloc::live();
                 push(&draws);
                 #[cfg(not(feature = "rand"))]
                 tinyset::verif_rand::set_seed(seed0);
@@ -321,12 +351,17 @@ pub fn fail_injection<S: USet>(e: &mut Eng<S>, hists: usize, steps: usize) {
                             // allowed: e.g. the placeholder was re-chosen before the failing growth; contents must be equal
                             e.bump("fail:representation-changed-contents-equal");
                         }
+                        if kind == 10 {
+                            // extend is a loop of inserts: what was inserted before the failing insert stays
+                            let now: BTreeSet<u64> = c.items().into_iter().collect();
+                            let vs: BTreeSet<u64> = (0..5).map(|k| S::norm(v.wrapping_add(k * 1000))).collect();
+                            let upper: BTreeSet<u64> = e.oracle[0].union(&vs).cloned().collect();
+                            if !(e.oracle[0].is_subset(&now) && now.is_subset(&upper) && c.len() == now.len()) {
+                                e.fail("C14", format!("after a caught allocation failure inside extend the set holds neither its prior contents nor a prefix of the extension (allocation #{}, value {})", k, v));
+                            }
+                        }
                         if kind <= 7 && !same_members {
                             e.fail("C14", format!("after a caught allocation failure (allocation #{} of op kind {} value {}) the set changed: before {} after {}", k, kind, v, cb, ca));
-                        }
-                        let (lb1, _) = alloc::live();
-                        if lb1 != lb0 {
-                            e.fail("C14,C06", format!("{} blocks leaked by the unwinding of op kind {} value {} (allocation #{} failed)", lb1 - lb0, kind, v, k));
                         }
                         // still usable: the same operation now succeeds with the right answer
                         push(&draws);
@@ -343,6 +378,12 @@ pub fn fail_injection<S: USet>(e: &mut Eng<S>, hists: usize, steps: usize) {
                     }
                 }
                 drop(c);
+                // everything the faulted run and the retry allocated must be gone with the clone
+                let (lb1, _) = alloc::live();
+                if lb1 != lb0 {
+                    e.fail("C14,C06", format!("{} blocks leaked after a caught allocation failure in op kind {} value {} (allocation #{} failed)", lb1 - lb0, kind, v, k));
+                    alloc::OP_LIVE_BLOCKS.store(lb0, SeqCst);
+                }
             }
             #[cfg(feature = "rand")]
             tinyset::verif_rand::clear();
@@ -352,6 +393,10 @@ pub fn fail_injection<S: USet>(e: &mut Eng<S>, hists: usize, steps: usize) {
             match kind {
                 0..=6 => e.op_ins(0, v),
                 7 => e.op_rem(0, v),
+                10 => {
+                    let vs: Vec<u64> = (0..5).map(|k| S::norm(v.wrapping_add(k * 1000))).collect();
+                    e.op_extend(0, &vs);
+                }
                 _ => e.op_con(0, v),
             }
             if e.slots[0].as_ref().unwrap().capacity() > 300 {
